@@ -239,6 +239,22 @@ pub fn run(tape: &mut Tape, props: Props, p: &Params, trace_on: bool) -> Outcome
     let abort_side: Option<usize> = if !p.liveness && tape.draw(12) == 11 { Some(tape.draw(2) as usize) } else { tape.draw(1); None };
     let mut link = LinkCfg::draw(tape, if p.thorough { 120 } else { 40 });
     link.corrupt_ok = corrupt_ok;
+    // focus profile: a zero-window episode (node 1's application does not read for a while, node 0 has more
+    // to send than node 1 can buffer) during which node 1's segments are duplicated in late bursts - stale
+    // ACKs / window values arrive after the window has reopened - and node 0's segments are lossy
+    let zero_window_focus = p.liveness && tape.draw(6) == 5;
+    let mut initial_read_stall = 0i64;
+    if zero_window_focus {
+        initial_read_stall = *tape.pick(&[500_000i64, 1_500_000, 3_000_000, 8_000_000]);
+        to_send[0] = to_send[0].max(3 * rxb[1] as u64 + 100).min(cap_stream.max(3 * rxb[1] as u64 + 100));
+        link.dir[1].dup = 300 + tape.draw(400);
+        link.dir[1].drop = tape.draw(50);
+        link.dir[1].big_delay = tape.draw(150);
+        link.dir[0].drop = 100 + tape.draw(300);
+        link.dir[0].dup = tape.draw(100);
+        link.fault_end = link.fault_end.max(initial_read_stall + 3_000_000);
+        link.profile_name = "zero-window-focus";
+    }
     let sloppy = !p.liveness;
     let key = [tape.draw(u64::MAX) | 1, tape.draw(u64::MAX) | 2];
 
@@ -298,7 +314,7 @@ pub fn run(tape: &mut Tape, props: Props, p: &Params, trace_on: bool) -> Outcome
             closed: false,
             eof: false,
             err: false,
-            read_stall_until: 0,
+            read_stall_until: if i == 1 { initial_read_stall } else { 0 },
             write_stall_until: 0,
             ever_established: false,
             aborted: false,
@@ -361,7 +377,7 @@ pub fn run(tape: &mut Tape, props: Props, p: &Params, trace_on: bool) -> Outcome
         medium,
         timeouts: [timeout[0].is_some(), timeout[1].is_some()],
         probes: [None, None],
-        stall_total: 0,
+        stall_total: initial_read_stall,
     };
     let res = main_loop(&mut w, &mut st, tape);
     let viol = res.err();
